@@ -155,7 +155,7 @@ func runC04(ctx *core.Ctx) {
 		}
 	}
 
-	nCase := ctx.N(1000, 10000)
+	nCase := ctx.N(1000, 25000)
 	nIn := ctx.N(250, 500)
 	ctx.Run("hostile", nCase, func(cs *core.Case) {
 		lc := core.LocalCounts{}
